@@ -449,25 +449,33 @@ func ruleC20(c *Ctx) {
 						keys = append(keys, c.P.pos(st.call.Pos()))
 					}
 					sort.Strings(keys)
-					calcs = append(calcs, calc{fd, "shared accumulation sites: " + strings.Join(keys, ", ")})
+					_ = keys
+					var descs []string
+					for _, st := range sites {
+						descs = append(descs, fmt.Sprintf("%s guarded=%v", st.desc, st.guarded))
+					}
+					sort.Strings(descs)
+					calcs = append(calcs, calc{fd, strings.Join(descs, " ;; ")})
 					continue
 				}
 				c.undecided("T10", c.P.declName(fd), "posting loop", fd.Pos(), "balance calculator without a loop over Postings")
 				continue
 			}
-			var sb strings.Builder
-			for _, st := range inner.Body.List {
-				sb.WriteString(fullStr(c.P.Fset, st))
-				sb.WriteString(" ;; ")
+			// the aggregation as access paths (which fields key the sums, which field is added), independent of the
+			// names of locals and of the statement layout
+			var descs []string
+			for _, st := range balanceAddSites(c, c.P.ssaOf(fd)) {
+				descs = append(descs, fmt.Sprintf("%s guarded=%v", st.desc, st.guarded))
 			}
-			calcs = append(calcs, calc{fd, sb.String()})
+			sort.Strings(descs)
+			calcs = append(calcs, calc{fd, strings.Join(descs, " ;; ")})
 		}
 	}
 	c.census("T10", "account-balance calculators", len(calcs)+nDelegating, 2)
 	c.census("T10", "account-balance calculators with a posting loop", len(calcs), 1)
 	for i := 1; i < len(calcs); i++ {
-		c.check(calcs[i].body == calcs[0].body, "T10", c.P.declName(calcs[i].fd), "same posting aggregation as sibling", calcs[i].fd.Pos(),
-			"the per-posting aggregation is identical to "+c.P.declName(calcs[0].fd),
+		c.check(calcs[i].body == calcs[0].body && calcs[0].body != "", "T10", c.P.declName(calcs[i].fd), "same posting aggregation as sibling", calcs[i].fd.Pos(),
+			"the per-posting aggregation is identical to "+c.P.declName(calcs[0].fd)+": "+calcs[0].body,
 			"the two account-balance calculators aggregate postings differently: hover figures depend on whether a resolved tree exists")
 	}
 	// aggregation uses explicitly posted amounts only: the quantity is accumulated with the exact Add, and only
@@ -1981,7 +1989,8 @@ func listContrib(f *ssa.Function, depth int, busy map[*ssa.Function]bool) map[st
 
 type balanceAddSite struct {
 	call    *ssa.Call
-	guarded bool // control dependent on the posting's amount being present
+	guarded bool   // control dependent on the posting's amount being present
+	desc    string // what is accumulated where, as access paths below the posting
 }
 
 // balanceAddSites: the decimal Add calls that accumulate <posting>.Amount.Quantity, in f or in functions of its
@@ -2050,7 +2059,35 @@ func balanceAddSites(c *Ctx, f *ssa.Function) []balanceAddSite {
 						guarded = true
 					}
 				}
-				out = append(out, balanceAddSite{call, guarded})
+				// where the sum goes: the map update that stores the result, its keys as access paths of the posting
+				cg := cgView{c}
+				desc := ""
+				var argDescs []string
+				for _, a := range call.Common().Args {
+					if d := postingFieldDesc(cg, a, 0); d != "" {
+						argDescs = append(argDescs, d)
+					}
+				}
+				sort.Strings(argDescs)
+				for _, b2 := range g.Blocks {
+					for _, i2 := range b2.Instrs {
+						mu, ok := i2.(*ssa.MapUpdate)
+						if !ok || !(mu.Value == ssa.Value(call) || backSlice(mu.Value)[call]) {
+							continue
+						}
+						inner := postingFieldDesc(cg, mu.Key, 0)
+						outer := ""
+						for w := range backSlice(mu.Map) {
+							if lk, ok := w.(*ssa.Lookup); ok {
+								if d := postingFieldDesc(cg, lk.Index, 0); d != "" {
+									outer = d
+								}
+							}
+						}
+						desc = fmt.Sprintf("sum[%s][%s] += %s", outer, inner, strings.Join(argDescs, ","))
+					}
+				}
+				out = append(out, balanceAddSite{call, guarded, desc})
 			}
 		}
 	}
